@@ -1195,6 +1195,8 @@ pub enum RepB {
     SilentMs(u32),
     /// Answer with something which is not a status response
     Garbage,
+    /// Answers correctly after a short think time (at most 80 ms: not a fault)
+    Ponder(u32),
 }
 
 pub struct ControllerCtx {
@@ -1553,6 +1555,10 @@ async fn report_handler_task(
                 let b = if calm.get() { RepB::Normal } else { b.clone() };
                 match &b {
                     RepB::Normal => {}
+                    RepB::Ponder(ms) => {
+                        // A healthy subscriber that takes a moment over its answer
+                        Timer::after(Duration::from_millis(*ms as u64)).await;
+                    }
                     RepB::DelayMs(ms) => {
                         c.ev(ImKind::Behave { hseq, what: "delay" });
                         Timer::after(Duration::from_millis(*ms as u64)).await;
